@@ -608,7 +608,7 @@ else:
 
                 cls.__model_fields__[name] = field
 
-        def __init__(self, **data: Any):
+        def __init__(self, /, **data: Any):
             # Process aliases
             processed_data = self._process_aliases(data)
             provided = set(processed_data)
